@@ -18,7 +18,10 @@ MANIFEST = {
 
 RULE = ("topo: every digraph on <=3 (quick) / <=4 (thorough) labelled nodes incl. self-loops x every non-empty request set, "
         "plus random graphs up to 12 nodes, each evaluated under 3 fresh RandomState keys, plus chains / ladders / trees / fans / large cycles of 40-200 (thorough: -500) nodes; kahn: every dependency multiset "
-        "drawn from those digraphs, the same with every edge doubled and tripled, random multigraphs with duplicate edges, and long chains / ladders. A case is non-trivial when it has at least "
+        "drawn from those digraphs, the same with every edge doubled and tripled, random multigraphs with duplicate edges, and long chains / ladders; "
+        "resolver-history: every history of add_node / add_dependency / resolve_build_order of length <=5 (thorough 6) on one resolver over two nodes sharing a name, <=3 (4) over three, "
+        "plus random histories over up to 9 nodes whose (name, path, kind) identities collide on the name; graph-history: every history of add_dependency / add_dependencies / "
+        "topological_sort_types of length <=3 (4) over two names plus random ones over up to 9 names. A case is non-trivial when it has at least "
         "one edge; distinct = distinct (graph, request) pairs")
 TRUSTED = ["Spec/P20.v boolean checkers are the run-time oracle applied to the implementation's answers; proved equivalent to the Prop statements (C20_topo_oracle_exact, C20_kahn_oracle_exact)"]
 ASSUMPTIONS = ["HashSet iteration order of an unmodified set is stable between two traversals (used to feed the observed order to the model)", "the implementation iterates each set either in its hash order or in sorted name order; any other deterministic order would show as a correspondence break (no-failing-input-found), not as a property violation"]
@@ -200,6 +203,152 @@ def eval_kahn(cases):
     return outs
 
 
+# ---------------------------------------------------------------- histories on one object
+def hist_cases(tier, rng):
+    """DependencyResolver histories: add_node / add_dependency / resolve interleaved on one resolver;
+    node identity is (name, path, kind) and distinct nodes may share a name."""
+    cases = []
+    clash2 = [[0, 0, 1], [0, 1, 1]]                      # same name, two files
+    clash3 = [[0, 0, 1], [0, 1, 1], [0, 0, 4]]           # ... and a module of the same name
+    def alphabet(n):
+        return [["n", i] for i in range(n)] + [["d", a, b] for a in range(n) for b in range(n)] + [["r"]]
+    for idents, maxlen in ((clash2, 5 if tier == "quick" else 6), (clash3, 3 if tier == "quick" else 4)):
+        al = alphabet(len(idents))
+        for L in range(1, maxlen + 1):
+            for ops in itertools.product(al, repeat=L):
+                if ops[-1] != ["r"]:
+                    continue
+                cases.append({"idents": idents, "ops": [list(o) for o in ops]})
+    # every small-scope graph, built completely then resolved, with all nodes sharing one name
+    for edges in all_graphs(3):
+        cases.append({"idents": clash3, "ops": [["n", i] for i in range(3)] + [["d", a, b] for a, b in edges] + [["r"]]})
+    nrand = 3000 if tier == "quick" else 60000
+    for _ in range(nrand):
+        n = rng.randint(2, 9)
+        names = rng.choice([1, 2, 3, n])
+        idents = []
+        while len(idents) < n:
+            t = [rng.randrange(names), rng.randrange(3), rng.randrange(5)]
+            if t not in idents:
+                idents.append(t)
+        acyclic = rng.random() < 0.6
+        ops = []
+        for _ in range(rng.randint(2, 3 * n)):
+            x = rng.random()
+            if x < 0.3:
+                ops.append(["n", rng.randrange(n)])
+            elif x < 0.75:
+                a, b = rng.randrange(n), rng.randrange(n)
+                if acyclic:
+                    if a == b:
+                        continue
+                    a, b = max(a, b), min(a, b)
+                ops.append(["d", a, b])
+            else:
+                ops.append(["r"])
+                if rng.random() < 0.5:
+                    ops.append(["n", rng.randrange(n)])      # resolve, add_node, resolve ...
+                    ops.append(["r"])
+        ops.append(["r"])
+        cases.append({"idents": idents, "ops": ops})
+    for i, c in enumerate(cases):
+        c["id"] = i
+    return cases
+
+
+def eval_hist(cases):
+    obs = vlib.run_harness("c20-hist", cases, per_case_timeout=10)
+    sexps, index = [], []
+    for c, o in zip(cases, obs):
+        if "panic" in o or o.get("skipped"):
+            continue
+        unknown = len(c["idents"]) + 1
+        outs = [([[x if x >= 0 else unknown for x in r["out"]]] if r["ok"] else None) for r in o["outs"]]
+        sexps.append(sx([c["ops"], outs]))
+        index.append(c["id"])
+    by = dict(zip(index, vlib.run_runner("c20-hist", sexps)))
+    res = []
+    for c, o in zip(cases, obs):
+        case = {k: c[k] for k in ("idents", "ops")}
+        if o.get("skipped"):
+            continue
+        if "panic" in o:
+            res.append(Outcome(case, False, False, detail={"impl": "PANIC " + o["panic"]}))
+            continue
+        m = by[c["id"]]
+        if m and m[0] == "runner-error":
+            raise vlib.BuildError("runner: %s" % m)
+        model = [r[0] == "ok" for r in m[0]]
+        corr = model == [r["ok"] for r in o["outs"]]
+        ok = m[1] == "true"
+        res.append(Outcome(case, corr, ok, detail={"impl": o["outs"], "model": m[0], "oracle_ok": ok},
+                           nontrivial=sum(1 for x in c["ops"] if x[0] == "r") > 1 or any(x[0] == "d" for x in c["ops"])))
+    return res
+
+
+def ghist_cases(tier, rng):
+    """TypeDependencyGraph histories: add_dependency / add_dependencies / topological_sort_types on one
+    graph. Node names T10..T99: sorted name order is numeric order (what the model traverses)."""
+    cases = []
+    ns = [10, 11]
+    subsets = [[], [10], [11], [10, 11]]
+    al = [["d", a, b] for a in ns for b in ns] + [["ds", a, s] for a in ns for s in subsets] + [["s", s] for s in subsets[1:]]
+    for L in range(1, (3 if tier == "quick" else 4) + 1):
+        for ops in itertools.product(al, repeat=L):
+            if ops[-1][0] != "s":
+                continue
+            cases.append({"ops": [list(o) for o in ops]})
+    nrand = 3000 if tier == "quick" else 60000
+    for _ in range(nrand):
+        n = rng.randint(2, 9)
+        pool = rng.sample(range(10, 100), n)
+        ops = []
+        for _ in range(rng.randint(2, 3 * n)):
+            x = rng.random()
+            if x < 0.5:
+                ops.append(["d", rng.choice(pool), rng.choice(pool)])
+            elif x < 0.65:
+                ops.append(["ds", rng.choice(pool), sorted(set(rng.choice(pool) for _ in range(rng.randint(0, 3))))])
+            else:
+                ops.append(["s", sorted(set(rng.choice(pool) for _ in range(rng.randint(1, 3))))])
+                if rng.random() < 0.4:                      # the same request again after one more edge
+                    ops.append(["d", rng.choice(pool), rng.choice(pool)])
+                    ops.append(ops[-2])
+        ops.append(["s", sorted(set(rng.choice(pool) for _ in range(rng.randint(1, 3))))])
+        cases.append({"ops": ops})
+    for i, c in enumerate(cases):
+        c["id"] = i
+    return cases
+
+
+def eval_ghist(cases):
+    obs = vlib.run_harness("c20-ghist", cases, per_case_timeout=10)
+    sexps, index = [], []
+    for c, o in zip(cases, obs):
+        if "panic" in o or o.get("skipped"):
+            continue
+        sexps.append(sx([c["ops"], o["outs"]]))
+        index.append(c["id"])
+    by = dict(zip(index, vlib.run_runner("c20-ghist", sexps)))
+    res = []
+    for c, o in zip(cases, obs):
+        case = {"ops": c["ops"]}
+        if o.get("skipped"):
+            continue
+        if "panic" in o:
+            res.append(Outcome(case, False, False, detail={"impl": "PANIC " + o["panic"]}))
+            continue
+        m = by[c["id"]]
+        if m and m[0] == "runner-error":
+            raise vlib.BuildError("runner: %s" % m)
+        model = [[int(x) for x in r[0]] if r else None for r in m[0]]
+        corr = model == o["outs"]
+        ok = m[1] == "true"
+        res.append(Outcome(case, corr, ok, detail={"impl": o["outs"], "model": model, "oracle_ok": ok},
+                           nontrivial=any(x[0] != "s" for x in c["ops"])))
+    return res
+
+
 def prep_kahn(cases):
     for c in cases:
         ns = list(c["nodes"])
@@ -217,6 +366,8 @@ def run(rep):
     rng = random.Random(rep.seed)
     rep.add("topo", eval_topo(topo_cases(rep.tier, rng)))
     rep.add("kahn", eval_kahn(prep_kahn(kahn_cases(rep.tier, rng))))
+    rep.add("resolver-history", eval_hist(hist_cases(rep.tier, rng)))
+    rep.add("graph-history", eval_ghist(ghist_cases(rep.tier, rng)))
 
 
 def replay(rep, payload):
@@ -229,5 +380,9 @@ def replay(rep, payload):
         c["reps"] = 16
         if it["stream"] == "topo":
             rep.add("topo", eval_topo([c]))
+        elif it["stream"] == "resolver-history":
+            rep.add("resolver-history", eval_hist([c]))
+        elif it["stream"] == "graph-history":
+            rep.add("graph-history", eval_ghist([c]))
         else:
             rep.add("kahn", eval_kahn(prep_kahn([c])))
